@@ -571,7 +571,19 @@ func (db *ContractDB) parseFile(pkg, file string) {
 					// element decoder: on success the value can be sized, occupies at least one byte and lies
 					// within the input (what list-decoding callers need for progress and bounds)
 					r, d, e := fc.Params[0], fc.Params[1], fc.Results[0]
-					if c := mkClause(e + " == nil ==> wfl(" + r + ") && 1 <= size(" + r + ") && size(" + r + ") <= len(" + d + ") && size(" + r + ") <= 65535"); c != nil {
+					// an element that carries the 4-byte type/length header of the package's Action or Instruction
+					// interface occupies at least that header
+					minSz := "1"
+					if fn, err := db.L.findFunc(pkg, fc.Ref); err == nil && fn.Signature.Recv() != nil {
+						for _, in := range []string{"Action", "Instruction"} {
+							if o := fn.Pkg.Pkg.Scope().Lookup(in); o != nil {
+								if it, ok := o.Type().Underlying().(*types.Interface); ok && types.Implements(fn.Signature.Recv().Type(), it) {
+									minSz = "4"
+								}
+							}
+						}
+					}
+					if c := mkClause(e + " == nil ==> wfl(" + r + ") && " + minSz + " <= size(" + r + ") && size(" + r + ") <= len(" + d + ") && size(" + r + ") <= 65535"); c != nil {
 						fc.Ensures = append(fc.Ensures, c)
 					}
 				}
@@ -2074,10 +2086,20 @@ func (e *Env) sumTerm(s VSlice, et types.Type, k *Term) *Term {
 		guard := And(ULt(x, k), ULe(k, s.Len))
 		if !guard.IsFalse() {
 			cur := e.st.heap[s.Obj]
-			ev := e.st.seqRead(cur, x)
 			specs := e.ex.L.Contracts.Specs["size"]
-			sz := e.specApply("size", specs, []tv{{ev, et}})
-			szT := ZExt(sz.v.(VInt).T, 64)
+			var szT *Term
+			if len(cur.Seq.entries) > 0 && !x.IsConst() {
+				// stored (appended) elements at possibly equal indices: the size by cases, since element values
+				// of interface type cannot be merged under a symbolic condition
+				szT = e.seqMapAt(cur, x, len(cur.Seq.entries)-1, func(ev Value) *Term {
+					sz := e.specApply("size", specs, []tv{{ev, et}})
+					return ZExt(sz.v.(VInt).T, 64)
+				})
+			} else {
+				ev := e.st.seqRead(cur, x)
+				sz := e.specApply("size", specs, []tv{{ev, et}})
+				szT = ZExt(sz.v.(VInt).T, 64)
+			}
 			prev := App(fname, BV(64), x)
 			st.assume(Implies(guard, And(Eq(t, Add(prev, szT)), ULe(prev, t), ULe(szT, Const(64, 1<<50)))))
 		}
